@@ -110,6 +110,7 @@ type WorkerResult struct {
 	CGNodes      int            `json:"callgraph_nodes"`
 	Absorbed     []string       `json:"absorbed_helpers,omitempty"` // functions outside the baseline analysed as part of their callers
 	InlineErrors []string       `json:"inline_errors,omitempty"`
+	Renames      []string       `json:"renames,omitempty"` // baseline functions/fields recognised under a new name
 	Obls         []Obligation   `json:"obligations"`
 	Rules        map[string]int `json:"rule_sites"`
 	WallS        float64        `json:"wall_s"`
